@@ -83,7 +83,24 @@ let loop_main () =
       | OutOfFuel -> "PGFAIL fuel"
       | Done pg ->
           let b = Buffer.create 4096 in
-          Buffer.add_string b (Printf.sprintf "PG %d" (List.length pg.pg_states));
+          let ia = induced g pg in
+          Buffer.add_string b (Printf.sprintf "PG %d S=%s C=%s E=%s single=%s" (List.length pg.pg_states)
+            (b2s (validS g ia)) (b2s (validC g ia)) (b2s (validE g ia)) (b2s (single_candidate g ia)));
+          (* the induced table: A s tok S t | A s tok R p | A s tok A ; T s rule t *)
+          List.iteri (fun s _ ->
+            let sn = n_of_int s in
+            for a = 0 to d.ntoks - 1 do
+              (match ia.action sn (n_of_int a) with
+               | Shift t -> Buffer.add_string b (Printf.sprintf " # A %d %d S %d" s a (int_of_n t))
+               | Reduce p -> Buffer.add_string b (Printf.sprintf " # A %d %d R %d" s a (int_of_n p))
+               | Accept -> Buffer.add_string b (Printf.sprintf " # A %d %d A" s a)
+               | Err -> ())
+            done;
+            for r = 0 to d.nrules - 1 do
+              (match ia.goto sn (n_of_int r) with
+               | Some t -> Buffer.add_string b (Printf.sprintf " # T %d %d %d" s r (int_of_n t))
+               | None -> ())
+            done) pg.pg_states;
           let put tag s items =
             let c = List.sort compare
               (List.map (fun ((p, dt), la) -> (int_of_n p, int_of_nat dt, List.sort_uniq compare (List.map int_of_n la))) items) in
